@@ -6,4 +6,4 @@ CONSTANTS
   CVals <- C1to9
   AstVals <- Ast3
   MaxS = 14
-INVARIANTS OnePerSecondB OnePerSecondA WellFormed Shape CoverA CoverB AstFree ReadingsAgree ImplOKSupported
+INVARIANTS OnePerSecondB OnePerSecondA WellFormed Shape CoverA CoverB AstFree ReadingsAgree ImplOKSupported ImplWellFormed
